@@ -27,18 +27,18 @@ def q(tier, quick, thorough):
 
 
 def recipe(c: Check):
-    c.build(["Properties/C02.vo", "Corr/C02.vo"], harness=["c02"])
+    c.build(["Properties/C02.vo", "Corr/C02.vo"], harness=["c02"], units=["t9tr"])
     c.obligations("C02")
     c.run_driver("http", q(c.tier, 300, 3000), shards=q(c.tier, 12, 16))
     cnt = (c.cov.get("coq_counters") or {}).get("http", {})
     if cnt:
-        for name in ("NFWD", "NREWRITEHOST", "NSETHDR", "NRESPHDR", "NXFFIN", "NXFFMULTI", "NHOP", "NUNCLEANQ", "NOVERRIDE", "NERR504", "NERR404"):
+        for name in ("NFWD", "NREWRITEHOST", "NSETHDR", "NRESPHDR", "NXFFIN", "NXFFMULTI", "NHOP", "NUNCLEANQ", "NOVERRIDE", "NERR504", "NERR404", "NADMITUP", "NADMITSTALL"):
             if cnt.get(name, 0) <= 0:
                 c.broken.append(dict(kind="coverage", name="driver http never reached branch %s" % name, detail=str(cnt)))
     st = c.run_driver("plugin", q(c.tier, 80, 800), shards=q(c.tier, 4, 16))
     if st and (c.cov.get("coq_counters") or {}).get("plugin"):
         cp = c.cov["coq_counters"]["plugin"]
-        for name in ("NH2H", "NH2HS", "NHS2H", "NHS2HS"):
+        for name in ("NH2H", "NH2HS", "NHS2H", "NHS2HS", "NPLUGUPGRADE"):
             if cp.get(name, 0) <= 0:
                 c.broken.append(dict(kind="coverage", name="driver plugin never exercised %s" % name, detail=str(cp)))
     st = c.run_driver("sys", q(c.tier, 90, 600), shards=q(c.tier, 6, 16))
